@@ -55,7 +55,8 @@ theorem C12_plain_writes :
       (fun w => w.2.2 == "fresh:literal" || allowedSharedWrites.contains (nameOf w.1, w.2.1, w.2.2)) = true := by decide +kernel
 
 /-- (1d) no read-reachable function writes package-level state — no assignment to a package-level variable, no entry of a
-package-level map or slice, no field of a package-level struct, no `delete`: there is no memo table, lazily built index or
+package-level map or slice, no field of a package-level struct, no `delete`, no method call on a package-level value
+(a pool, a shared encoder or buffer): there is no memo table, lazily built index or
 shared scratch buffer behind the read-only API. The only writers of package-level state are the three registration
 functions, which are not read-reachable. -/
 theorem C12_no_package_level_writes :
